@@ -102,6 +102,14 @@ def gen_column(rng, k, mode):
             w[0] = 1
         s = sum(w)
         return [x / s for x in w]
+    if mode == "unnorm":
+        # typed with 2..3 decimals: the column sum is within check_model's 0.01 of 1 but is not 1; nothing may
+        # renormalise it on the way through a file
+        base = round(1.0 / k, 3)
+        col = [base] * k
+        j = rng.randrange(k)
+        col[j] = round(col[j] + rng.choice([-0.004, 0.003, 0.002, -0.002]), 3)
+        return col
     if mode == "near":
         # entries that differ by 1e-9 .. 1e-15 (only full-precision printing keeps them apart)
         dlt = rng.choice([1e-9, 1e-12, 1e-15])
@@ -156,6 +164,9 @@ def gen_bn(rng, n, big=False, uai_big_cards=False, forced=None, wide=False, stat
         cards = dict(fc)
         parents = {v: list(fp.get(v, [])) for v in names}
         for v in names:
+            if cards[v] > 13:
+                states[v] = ["st%d" % i for i in range(cards[v])]
+                continue
             sp = STATE_POOLS[spi] if spi is not None else rng.choice([q for q in STATE_POOLS if len(q) >= cards[v]])
             states[v] = rng.sample(sp, cards[v])
     if wide:
@@ -180,7 +191,10 @@ def gen_bn(rng, n, big=False, uai_big_cards=False, forced=None, wide=False, stat
         pl = ["a", "b", "c"]
         rng.shuffle(pl)
         parents = {"a": [], "b": [], "c": [], "d": pl}
-    mode = rng.choice(modes or ["dyadic", "onehot", "thirds", "tiny", "mixed", "near"])
+    mode = rng.choice(modes or ["dyadic", "onehot", "thirds", "tiny", "mixed", "near", "unnorm"])
+    if states_kind == "big_ident":
+        states = {v: ["st%d" % i for i in range(cards[v])] for v in names}
+        states_kind = "ident"
     if states_kind == "default_int":      # TabularCPD without state_names: 0..k-1
         states = {v: list(range(cards[v])) for v in names}
     elif states_kind == "int_perm":       # integers that are not their positions
@@ -198,7 +212,7 @@ def gen_bn(rng, n, big=False, uai_big_cards=False, forced=None, wide=False, stat
         P = _prod(cards[p] for p in parents[v])
         cols = []
         for _ in range(P):
-            md = mode if mode != "mixed" else rng.choice(["dyadic", "onehot", "thirds", "tiny", "near"])
+            md = mode if mode != "mixed" else rng.choice(["dyadic", "onehot", "thirds", "tiny", "near", "unnorm"])
             cols.append(gen_column(rng, cards[v], md))
         # values2d[c][j]
         values[v] = [[cols[j][c] for j in range(P)] for c in range(cards[v])]
@@ -212,6 +226,34 @@ def gen_bn(rng, n, big=False, uai_big_cards=False, forced=None, wide=False, stat
     rng.shuffle(cpd_order)
     return {"names": names, "node_order": node_order, "edge_order": edge_order, "cpd_order": cpd_order,
             "nodes_first": rng.random() < 0.7, "states_kind": states_kind, "states": states, "parents": parents, "values": values, "mode": mode}
+
+
+def gen_sparse(rng, n):
+    """a network of n variables, small cardinalities, at most two parents each (cheap at any size)"""
+    pool = KW_NAMES + PLAIN_NAMES + ["n%d" % i for i in range(40)] + ["zz_last", "zzz"]
+    names = rng.sample(pool, n)
+    cards = {v: rng.choice([2, 2, 2, 3, 1]) for v in names}
+    states = {v: ["s%d" % i for i in range(cards[v])] for v in names}
+    order = list(names)
+    rng.shuffle(order)
+    parents = {}
+    for i, v in enumerate(order):
+        k = min(i, rng.choice([0, 1, 1, 2]))
+        parents[v] = rng.sample(order[max(0, i - 6):i], min(k, len(order[max(0, i - 6):i])))
+    values = {}
+    for v in names:
+        P = _prod(cards[p] for p in parents[v])
+        cols = [gen_column(rng, cards[v], rng.choice(["dyadic", "thirds", "tiny"])) for _ in range(P)]
+        values[v] = [[cols[j][c] for j in range(P)] for c in range(cards[v])]
+    node_order = list(names)
+    rng.shuffle(node_order)
+    edge_order = [[p, v] for v in names for p in parents[v]]
+    rng.shuffle(edge_order)
+    cpd_order = list(names)
+    rng.shuffle(cpd_order)
+    return {"names": names, "node_order": node_order, "edge_order": edge_order, "cpd_order": cpd_order,
+            "nodes_first": rng.random() < 0.7, "states_kind": "ident", "states": states, "parents": parents,
+            "values": values, "mode": "sparse"}
 
 
 def _prod(it):
@@ -305,15 +347,15 @@ def cases(tier, seed):
     nb = 150 if tier == "quick" else 2400
     for i in range(nb):
         n = rng.choice([1, 2, 3, 3, 4, 4, 5, 6])
-        bif = (i % 8 == 0) if tier == "quick" else (i % 5 in (0, 2))
-        c = {"kind": "bn", "bn": gen_bn(rng, n, uai_big_cards=(i % 5 == 0)), "njobs": 2 if i % 100 == 12 else 1,
+        bif = (i % 15 == 0) if tier == "quick" else (i % 5 in (0, 2))
+        c = {"kind": "bn", "bn": gen_bn(rng, n, uai_big_cards=(i % 5 == 0)), "njobs": 2 if i % 100 == 12 and tier != "quick" else 1,
              "saveload": i % 3 == 0 and i % 10 != 0, "formats": ["bif", "xmlbif", "uai", "net"] if bif else ["xmlbif", "uai", "net"]}
         out.append(c)
     # variants: one object used several times (sessions), file route, comments, properties, writer options, state-name
     # kinds, torch backend -- each option drawn independently
     def variant(opts, kind, bif, njobs=1, n=None):
         o = {"session": False, "route": "string", "decorate": False, "props": False, "include_properties": False,
-             "xml_pretty": None, "round_values": None, "backend": "numpy"}
+             "xml_pretty": None, "round_values": None, "backend": "numpy", "state_name_type": None}
         o.update(opts)
         torch_ = o["backend"] == "torch"
         if torch_ and o["round_values"] == 3:
@@ -338,8 +380,10 @@ def cases(tier, seed):
                                ({"props": True, "include_properties": True}, "ident", 1),
                                ({"props": True, "include_properties": True, "session": True}, "ident-property", 1),
                                ({"decorate": True, "route": "path"}, "ident", 1),
-                               ({"backend": "torch", "session": True}, "ident", 1), ({"session": True}, "int_perm", -1),
-                               ({"props": True, "session": True, "route": "path"}, "default_int", 2),
+                               ({"backend": "torch", "session": True, "round_values": 3}, "ident", 1),
+                               ({"session": True, "state_name_type": "int"}, "int_perm", 1),
+                               ({"props": True, "include_properties": True, "route": "path", "state_name_type": "int",
+                                 "round_values": 3}, "default_int", 1),
                                ({"round_values": 12, "decorate": True}, "bool", 1)]:
             if kind == "ident-property":
                 out.append(variant(opts, "ident", True, nj, n="fixed-property"))
@@ -351,12 +395,40 @@ def cases(tier, seed):
                 "props": rng.random() < 0.35, "include_properties": rng.random() < 0.5,
                 "xml_pretty": rng.choice([None, None, False]), "round_values": rng.choice([None, None, None, 0, 3, 12]),
                 "backend": rng.choice(["numpy", "numpy", "torch"])}
-        out.append(variant(opts, rng.choice(["ident", "default_int", "int_perm", "bool"]),
+        kind_ = rng.choice(["ident", "default_int", "int_perm", "bool"])
+        if kind_ in ("default_int", "int_perm") and rng.random() < 0.5:
+            opts["state_name_type"] = "int"
+        out.append(variant(opts, kind_,
                            tier != "quick" and rng.random() < 0.3, -1 if i % 60 == 0 else (2 if i % 20 == 1 else 1)))
     # wide CPDs: 8..10 parents (>= 9 variables in one table; long rows / deep nesting in the NET array text)
     for i in range(3 if tier == "quick" else 30):
         out.append({"kind": "bn", "bn": gen_bn(rng, 10, wide=8 if tier == "quick" or i % 3 == 0 else True), "njobs": 1, "saveload": i % 2 == 0,
                     "opts": {"session": i % 2 == 1}, "formats": ["xmlbif", "uai", "net"] + (["bif"] if i % 3 == 0 else [])})
+    # sizes: around the batch sizes 8 / 16 / 32 (and 1 mod 8), every size 1..34 in the thorough tier
+    if tier == "quick":
+        # (n_jobs omitted = the default -1 costs ~25 s per worker process: in the quick tier it is exercised by the
+        #  corpus case seed-C09-I-sizes17-default.json only)
+        size_cases = [([9, 17, 25, 33, 8, 16, 32, 34], 2, ["bif"], True), ([9, 33, 24], 1, ["bif"], True),
+                      ([8, 9, 16, 17], 1, ["xmlbif", "uai", "net"], True), ([32, 33], 1, ["xmlbif", "net"], False)]
+    else:
+        size_cases = []
+        allsz = list(range(1, 35))
+        for nj in (2, None, 1):
+            for j in range(0, 34, 6):
+                size_cases.append((allsz[j:j + 6], nj, ["bif"], True))
+        for j in range(0, 34, 9):
+            size_cases.append((allsz[j:j + 9], 1, ["xmlbif", "net"] + (["uai"] if j < 18 else []), True))
+        size_cases.append(([9, 17, 25, 33, 41, 49], 2, ["bif"], False))
+    for sizes, nj, fm, ld in size_cases:
+        out.append({"kind": "sizes", "sizes": sizes, "njobs": nj, "formats": fm, "load": ld, "seed": rng.randint(0, 10**6)})
+    # a variable with more than 256 states (root and parent of a child)
+    for i in range(1 if tier == "quick" else 6):
+        big_card = rng.choice([257, 300, 1000][: 2 if tier == "quick" else 3])
+        nm = rng.sample(KW_NAMES + PLAIN_NAMES, 2)
+        out.append({"kind": "bn", "bn": gen_bn(rng, 2, forced=(nm, {nm[0]: big_card, nm[1]: 2}, {nm[1]: [nm[0]]}, None),
+                                               modes=["thirds", "tiny"], states_kind="default_int" if i % 2 else "big_ident"),
+                    "njobs": 1, "saveload": False, "opts": {"session": i % 2 == 1},
+                    "formats": ["xmlbif", "uai", "net"] + (["bif"] if i % 2 == 0 else [])})
     # the empty network (UAI text of an empty network is not readable by UAIReader: reported, not exercised)
     out.append({"kind": "empty"})
     # edits between two saves to the same path (the second file must be that of a freshly built model)
@@ -418,17 +490,22 @@ def build_bn(b):
     import numpy as np
     from pgmpy.models import BayesianNetwork
     from pgmpy.factors.discrete import TabularCPD
+    def fr(x):
+        """an equal but not identical object for every use of a name (a fresh str each time)"""
+        return "".join(list(x)) if isinstance(x, str) and len(x) > 1 else x
+
     m = BayesianNetwork()
     if b.get("nodes_first", True):
-        m.add_nodes_from(b["node_order"])
+        m.add_nodes_from([fr(v) for v in b["node_order"]])
     for p, v in b.get("edge_order") or [[p, v] for v in b["names"] for p in b["parents"][v]]:
-        m.add_edge(p, v)
-    m.add_nodes_from(b["node_order"])  # isolated nodes when the edges came first
+        m.add_edge(fr(p), fr(v))
+    m.add_nodes_from([fr(v) for v in b["node_order"]])  # isolated nodes when the edges came first
     for v in b.get("cpd_order") or b["names"]:
-        ps = b["parents"][v]
+        ps = [fr(p) for p in b["parents"][v]]
         card = len(b["states"][v])
         arr = np.array(b["values"][v], dtype=float).reshape(card, -1)
-        sn = {} if b.get("states_kind") == "default_int" else {x: list(b["states"][x]) for x in [v] + ps}
+        sn = {} if b.get("states_kind") == "default_int" else {fr(x): [fr(st) for st in b["states"][x]] for x in [v] + ps}
+        v = fr(v)
         m.add_cpds(TabularCPD(v, card, arr, evidence=ps or None,
                               evidence_card=[len(b["states"][p]) for p in ps] or None, state_names=sn))
     return m
@@ -723,7 +800,7 @@ def run_bn_inner(case, drv, opts):
             "unequal parent cards" if unequal else "equal/no parent cards",
             "table>1000" if max(sizes) > 1000 else "table<=1000"]
     if "bif" in case.get("formats", ["bif"]):
-        tags.append("bif n_jobs=%d" % case["njobs"])
+        tags.append("bif n_jobs=%s" % ("default" if case["njobs"] is None else case["njobs"]))
     if any(len(b["states"][v]) >= 10 for v in names):
         tags.append("card>=10")
     if any(len(b["states"][v]) == 1 for v in names):
@@ -777,7 +854,10 @@ def run_bn_inner(case, drv, opts):
             flats, ref = flats0, ref0
         if fmt == "xmlbif" and opts.get("xml_pretty") is False:
             wkw["prettyprint"] = False
-        rkw = {"n_jobs": case["njobs"]} if fmt == "bif" else {}
+        rkw = {"n_jobs": case["njobs"]} if fmt == "bif" and case["njobs"] is not None else {}
+        gkw = {}
+        if opts.get("state_name_type") == "int" and fmt != "uai":
+            gkw["state_name_type"] = int
         if opts.get("props") and opts.get("include_properties") and fmt in ("bif", "net"):
             rkw["include_properties"] = True
         path = os.path.join(TMP, "r_%d_%s_%s" % (os.getpid(), key, fmt))
@@ -805,15 +885,18 @@ def run_bn_inner(case, drv, opts):
                 for g_ in GETTERS:      # the public getters again, before the model is built
                     if hasattr(r, g_) and not (g_ == "get_property" and fmt == "net" and "include_properties" not in rkw):
                         getattr(r, g_)()
-            m2 = r.get_model()
+            m2 = r.get_model(**gkw) if gkw else r.get_model()
+            if gkw and not all(isinstance(st, int) and not isinstance(st, bool)
+                               for c_ in m2.get_cpds() for st in c_.state_names[c_.variable]):
+                return bad("impl!=spec:%s-state_name_type-int-ignored" % fmt, {}, key=key, tags=tags)
             if opts.get("session"):
                 # the same reader object again; results are independent objects
-                m2b = r.get_model()
+                m2b = r.get_model(**gkw)
                 if m2b is m2 or any(c1 is c2 for c1 in m2.get_cpds() for c2 in m2b.get_cpds()):
                     return bad("session:%s-get_model-twice-shares-objects" % fmt, {}, key=key, tags=tags)
                 for c_ in m2.get_cpds():
                     c_.values[...] = 0.125      # scribble over the first result
-                m2c = r.get_model()
+                m2c = r.get_model(**gkw)
                 if named(m2c) != named(m2b):
                     return bad("session:%s-get_model-result-aliases-reader-state" % fmt, {}, key=key, tags=tags)
                 m2 = m2c
@@ -874,7 +957,7 @@ def run_bn_inner(case, drv, opts):
                 with open(path) as fh:
                     ftext = fh.read()
                 if fmt == "bif":
-                    m3 = BayesianNetwork.load(path, n_jobs=case["njobs"])
+                    m3 = BayesianNetwork.load(path, **({} if case["njobs"] is None else {"n_jobs": case["njobs"]}))
                 else:
                     m3 = BayesianNetwork.load(path, filetype=fmt)
             finally:
@@ -1091,6 +1174,28 @@ def uai_back(m, m2):
     return named(m2, vmap, smap), sorted((vmap[a], vmap[c]) for a, c in m2.edges())
 
 
+def run_sizes(case, drv):
+    """networks of the listed sizes (around batch sizes 8 / 16 / 32 and every size 1..34 in the thorough tier):
+    BIF through string= or path= and load, with n_jobs omitted (default), 2 or 1 -- one worker process keeps its joblib
+    pool, so the sizes of one n_jobs value share a case -- and the other formats at the same sizes; every variable
+    must come back with its CPD"""
+    rng = random.Random(case["seed"])
+    tags = ["sizes n_jobs=%s" % ("default" if case["njobs"] is None else case["njobs"])]
+    for i, n in enumerate(case["sizes"]):
+        b = gen_sparse(rng, n)
+        sub = {"kind": "bn", "bn": b, "njobs": case["njobs"], "saveload": case.get("load", False) and i % 2 == 0,
+               "formats": case["formats"], "opts": {"route": ["string", "path"][(i + case["seed"]) % 2]}}
+        o = run_bn_inner(sub, drv, sub["opts"])
+        tags.append("size=%d (%d mod 8)" % (n, n % 8))
+        tags += [t for t in o.get("tags", []) if t.startswith(("format=", "save/load ", "opt route"))]
+        if not o["ok"]:
+            o["tags"] = tags
+            o["detail"] = dict(o.get("detail") or {}, size=n, n_jobs=case["njobs"])
+            return o
+    return ok(nontrivial=True, key=common.canon_key(["sizes", case["sizes"], case["njobs"], case["formats"], case["seed"]]),
+              tags=sorted(set(tags)))
+
+
 def run_empty(case, drv):
     from pgmpy.models import BayesianNetwork
     cl = fmt_classes()
@@ -1253,6 +1358,8 @@ def run_reject(case, drv):
 
 
 def run_case(case, drv):
+    if case["kind"] == "sizes":
+        return run_sizes(case, drv)
     if case["kind"] == "empty":
         return run_empty(case, drv)
     if case["kind"] == "edit":
